@@ -4,8 +4,8 @@
 From Coq Require Import List Arith Bool Lia ZArith.
 From LMBase Require Import Res ListX IEEE.
 From LMScore Require Import ScoreModel SimdModel GenAvx2 GenLane4 ScoreProofs SimdProofs Sse2Proofs
-     ReadmeExample StripeBridge C01.
-From LMStripe Require NetModel StripeModel StripeAvx2.
+     ReadmeExample StripeBridge ScorePadModel ScorePad StripePadBridge C01.
+From LMStripe Require NetModel StripeModel StripeAvx2 StripeSpec PadModel PadProofs PadHistory C04.
 Import ListNotations.
 
 (* Composition with the striping model of property C04 (coq/stripe): the hypothesis
@@ -64,6 +64,115 @@ Proof.
   apply (C01_score_unstripe f32 F32.add F32.zero 32 K pssm _ (of_stripe st)); auto. lia.
 Qed.
 
+
+(* ---------- round 3, wave 3 (review finding 4): the bridge itself, audited ---------- *)
+
+(* any history of stripe / stripe_into / configure / configure_wrap calls of the C04 model from
+   StripedSequence::default(): never fails; the state satisfies [Striped] for the sequence striped
+   last; its wrap is what the configure calls since then demand.  (Was the unaudited lemma
+   StripeBridge.history_striped; every `Striped C (K-1) s q` hypothesis of C01.v can be discharged
+   with it, not only the two full-scan compositions above.) *)
+Theorem C01_history_striped :
+  forall (K C : nat) (ops : list LMStripe.StripeAvx2.op),
+    0 < C -> forallb (LMStripe.StripeAvx2.op_typed C) ops = true ->
+    exists st,
+      LMStripe.StripeAvx2.run K C LMStripe.StripeModel.s_default ops = Ok st /\
+      Striped C (K - 1) (LMStripe.StripeAvx2.last_seq [] ops) (of_stripe st) /\
+      sq_wrap (of_stripe st) = LMStripe.StripeAvx2.wrap_after 0 ops.
+Proof. exact history_striped. Qed.
+
+(* ... starting from ANY buffer (stale contents, stale len / wrap) when the history begins with a stripe_into *)
+Theorem C01_history_striped_stale_start :
+  forall (K C : nat) (b : LMStripe.StripeAvx2.backend) (s0 : list nat)
+         (ops : list LMStripe.StripeAvx2.op) (old : LMStripe.StripeModel.sseq),
+    0 < C -> LMStripe.StripeSpec.wf_matrix C (LMStripe.StripeModel.mat old) ->
+    forallb (LMStripe.StripeAvx2.op_typed C) (LMStripe.StripeAvx2.OStripeInto b s0 :: ops) = true ->
+    exists st,
+      LMStripe.StripeAvx2.run K C old (LMStripe.StripeAvx2.OStripeInto b s0 :: ops) = Ok st /\
+      Striped C (K - 1) (LMStripe.StripeAvx2.last_seq s0 ops) (of_stripe st) /\
+      sq_wrap (of_stripe st) = LMStripe.StripeAvx2.wrap_after 0 ops.
+Proof.
+  intros K C b s0 ops old HC Hwf Ht.
+  destruct (LMStripe.C04.C04_history_stale_start K C b s0 ops old HC Hwf Ht) as [st [Hrun [Hst Hw]]].
+  exists st. split; [exact Hrun|]. split; [apply striped_bridge; exact Hst|exact Hw].
+Qed.
+
+(* ---------- padded states: histories that contain StripedSequence::sample / ::new ---------- *)
+
+(* [StripedPad] of C04 is [Padded] of C01 *)
+Theorem C01_padded_bridge :
+  forall (K C : nat) (s : list nat) (st : LMStripe.StripeModel.sseq),
+    LMStripe.PadProofs.StripedPad K C s st -> Padded C (K - 1) s (of_stripe st).
+Proof. exact padded_bridge. Qed.
+
+(* After ANY history mixing sample / new / stripe / stripe_into / configure / configure_wrap (C04's
+   run2, from any padded state, e.g. StripedSequence::default()): never fails, and a scan of the final
+   state with a motif it is configured for unstripes to exactly L - M + 1 defined scores of the
+   sequence the buffer then holds -- whatever the padding holds.  (mat_wf: every cell is a symbol;
+   the draws of `sample` and the matrix given to `new` are typed A::Symbol in the code, plain nat in
+   C04's model.) *)
+Theorem C01_pad_history_scan :
+  forall (T : Type) (add : T -> T -> T) (zero : T) (K C : nat)
+         (ops : list LMStripe.PadHistory.op2) (s : list nat) (st : LMStripe.StripeModel.sseq)
+         (pssm : list (list T)),
+    0 < C -> LMStripe.PadProofs.StripedPad K C s st ->
+    forallb (LMStripe.PadHistory.op2_ok C) ops = true ->
+    exists st',
+      LMStripe.PadHistory.run2 K C st ops = Ok st' /\
+      Padded C (K - 1) (LMStripe.PadHistory.seq_after K C s ops) (of_stripe st') /\
+      (mat_wf C K (sq_mat (of_stripe st')) -> pssm_wf K pssm ->
+       1 <= length pssm -> length pssm - 1 <= sq_wrap (of_stripe st') ->
+       rbind (generic_score add zero C pssm (of_stripe st')) (sc_unstripe C) =
+       Ok (map (score_def add zero (K - 1) pssm (LMStripe.PadHistory.seq_after K C s ops))
+               (seq 0 (length (LMStripe.PadHistory.seq_after K C s ops) + 1 - length pssm)))).
+Proof.
+  intros T add zero K C ops s st pssm HC Hpad Hok.
+  destruct (LMStripe.C04.C04_pad_history K C ops s st HC Hpad Hok) as [st' [Hrun Hpad']].
+  exists st'. split; [exact Hrun|].
+  pose proof (padded_bridge K C _ st' Hpad') as HP. split; [exact HP|].
+  intros Hm Hp HM Hw.
+  exact (C01_score_unstripe_padded T add zero C K pssm _ (of_stripe st') HC Hm Hp HP HM Hw).
+Qed.
+
+(* ... and on every pipeline (binary32, 32 columns) *)
+Theorem C01_pad_history_backends :
+  forall (K : nat) (ops : list LMStripe.PadHistory.op2) (s : list nat) (st : LMStripe.StripeModel.sseq)
+         (pssm : list (list f32)) (pads : nat -> list f32) (ar : arm),
+    LMStripe.PadProofs.StripedPad K 32 s st ->
+    forallb (LMStripe.PadHistory.op2_ok 32) ops = true ->
+    exists st',
+      LMStripe.PadHistory.run2 K 32 st ops = Ok st' /\
+      (mat_wf 32 K (sq_mat (of_stripe st')) -> pssm_wf K pssm ->
+       1 <= length pssm -> length pssm - 1 <= sq_wrap (of_stripe st') -> (Z.of_nat (length pssm) <= 2 ^ 23)%Z ->
+       exists sc vals,
+         generic_score F32.add F32.zero 32 pssm (of_stripe st') = Ok sc /\
+         score_with (avx2_rows_into F32.add F32.zero avx2_permute_consts avx2_gather_consts K pssm pads)
+                    (of_stripe st') = Ok sc /\
+         score_with (sse2_rows_into F32.add F32.zero sse2_consts 32 pssm) (of_stripe st') = Ok sc /\
+         score_with (dispatch_rows_into F32.add F32.zero dispatch_score_f32 avx2_permute_consts
+                                        avx2_gather_consts sse2_consts K pssm pads ar) (of_stripe st') = Ok sc /\
+         sc_unstripe 32 sc = Ok vals /\
+         vals = map (score_def F32.add F32.zero (K - 1) pssm (LMStripe.PadHistory.seq_after K 32 s ops))
+                    (seq 0 (length (LMStripe.PadHistory.seq_after K 32 s ops) + 1 - length pssm))).
+Proof.
+  intros K ops s st pssm pads ar Hpad Hok.
+  destruct (LMStripe.C04.C04_pad_history K 32 ops s st ltac:(lia) Hpad Hok) as [st' [Hrun Hpad']].
+  exists st'. split; [exact Hrun|]. intros Hm Hp HM Hw HM23.
+  destruct (C01_every_backend_padded K pssm pads _ (of_stripe st') ar Hm Hp (padded_bridge K 32 _ st' Hpad') HM Hw HM23)
+    as [sc [vals [E1 [E2 [E3 [E4 [E5 [E6 _]]]]]]]].
+  exists sc, vals. repeat split; auto.
+Qed.
+
+(* non-vacuity: sample (6 draws for len = 6 ... all 8 cells drawn), then configure for a 2-column motif, at
+   C = 4: the history is well-formed, runs, and ends in a state that is NOT [Striped] *)
+Example C01_pad_history_example :
+  let ops := [LMStripe.PadHistory.OSample [0; 2; 0; 1; 1; 3; 1; 2] 6;
+              LMStripe.PadHistory.O1 (LMStripe.StripeAvx2.OConfigure 2)] in
+  forallb (LMStripe.PadHistory.op2_ok 4) ops = true /\
+  LMStripe.PadHistory.run2 5 4 LMStripe.StripeModel.s_default ops =
+    Ok (LMStripe.StripeModel.mkS [[0; 2; 0; 1]; [1; 3; 1; 2]; [2; 0; 1; 4]] 6 1) /\
+  LMStripe.PadHistory.seq_after 5 4 [] ops = [0; 1; 2; 3; 0; 1].
+Proof. vm_compute. repeat split; reflexivity. Qed.
 
 (* the README calls as a history: to_striped() (dispatching pipeline) then configure(&pssm) *)
 Example C01_readme_history :
